@@ -1,13 +1,81 @@
 (* C13 -- make glob patterns match like bmake; intersection and emptiness are exact.
-   Only statements; every proof is `exact <lemma>`. *)
-From PV Require Import Lib.Bytes Gen.NumberAutomaton Model.Makepat Spec.StrMatch Spec.CNumber
-  Proofs.MakepatRefute.
+   Only statements; every proof is `exact <lemma>`.
+   Model: Model/Makepat.v (pat.go, mayMatchNumber).  Specifications: Spec/StrMatch.v
+   (bmake's Str_Match, `malformed`), Spec/CNumber.v (C99 number grammar). *)
+From PV Require Import Lib.Bytes Lib.ByteRange Gen.NumberAutomaton Model.Makepat Spec.StrMatch Spec.CNumber
+  Proofs.MakepatRefute Proofs.MakepatMalformed Proofs.MakepatStrMatch Proofs.CNumberRe Proofs.NumberExact.
 Open Scope N_scope.
 
+(* ---------- Compile ---------- *)
+
+(* Compile never panics and never runs out of fuel, for any pattern *)
+Theorem C13_compile_total : forall pat : str, exists r, compile pat = Ok r.
+Proof. exact compile_total. Qed.
+Print Assumptions C13_compile_total.
+
+(* Compile returns an error exactly for the malformed patterns (unfinished
+   escape sequence / character list / character range), for any pattern *)
+Theorem C13_compile_fails_iff_malformed : forall pat : str,
+  compile pat = Ok None <-> malformed pat = true.
+Proof. exact compile_fails_iff_malformed. Qed.
+Print Assumptions C13_compile_fails_iff_malformed.
+
+(* ---------- Match against bmake's Str_Match ---------- *)
+
+(* the full statement: false of the faithful model *)
 Definition C13_match_is_strmatch_full : Prop :=
   forall (p : str) (a : pattern) (s : str),
     compile p = Ok (Some a) -> res_to_option (matchp a s) = str_match p s.
 
+(* witness: the pattern [a-]] and the word a (Match: true, Str_Match: false) *)
 Theorem C13_match_is_strmatch_refuted : ~ C13_match_is_strmatch_full.
 Proof. exact match_is_strmatch_refuted. Qed.
 Print Assumptions C13_match_is_strmatch_refuted.
+
+(* the guarded statement, for all patterns and all strings:
+   - the pattern is shorter than 65536 bytes (stateID is a uint16),
+   - the string consists of bytes,
+   - no non-negated character list of the pattern contains a range ending in ']'.
+   Then Match neither panics nor runs out of fuel, Str_Match does not run out
+   of fuel, and both give the same answer. *)
+Theorem C13_match_is_strmatch_partial : forall (p : str) (a : pattern) (s : str),
+  N.of_nat (length p) < 65536 -> is_bytes s -> range_to_rbracket p = false ->
+  compile p = Ok (Some a) ->
+  exists b, matchp a s = Ok b /\ str_match p s = Some b.
+Proof. exact match_is_strmatch_partial. Qed.
+Print Assumptions C13_match_is_strmatch_partial.
+
+(* ---------- Number() ---------- *)
+
+(* the automaton literal (regenerated from pat.go on every run) accepts exactly
+   the C99 constants of Spec/CNumber.v; for every word, byte or not *)
+Theorem C13_number_exact : forall s : str, matchp number s = Ok (is_c_number s).
+Proof. exact number_exact. Qed.
+Print Assumptions C13_number_exact.
+
+(* the recogniser of the spec is the textbook language of the grammar *)
+Theorem C13_c_number_is_grammar : forall s : str, is_c_number s = true <-> lang c_number s.
+Proof. exact (fun s => re_match_spec c_number s). Qed.
+Print Assumptions C13_c_number_is_grammar.
+
+(* ---------- non-vacuity ---------- *)
+
+Definition ex_pat : str := [42; 46; 91; 99; 104; 93].        (* *.[ch] *)
+Definition ex_str : str := [102; 111; 111; 46; 104].         (* foo.h *)
+Example C13_witness_match :
+  (exists a, compile ex_pat = Ok (Some a) /\ matchp a ex_str = Ok true)
+  /\ str_match ex_pat ex_str = Some true /\ range_to_rbracket ex_pat = false
+  /\ malformed ex_pat = false /\ is_bytes ex_str.
+Proof.
+  split; [eexists; split; vm_compute; reflexivity|].
+  split; [vm_compute; reflexivity|]. split; [vm_compute; reflexivity|]. split; [vm_compute; reflexivity|].
+  apply is_bytesb_spec. vm_compute. reflexivity.
+Qed.
+
+Definition ex_bad : str := [97; 91; 98; 45].                 (* a[b- *)
+Example C13_witness_malformed : compile ex_bad = Ok None /\ malformed ex_bad = true.
+Proof. split; vm_compute; reflexivity. Qed.
+
+Definition ex_num : str := [45; 48; 120; 49; 46; 56; 112; 43; 51].   (* -0x1.8p+3 *)
+Example C13_witness_number : matchp number ex_num = Ok true /\ matchp number [48; 120] = Ok false.
+Proof. split; vm_compute; reflexivity. Qed.
